@@ -194,7 +194,19 @@ class _Exec:
             except Deadlock:
                 deadlock = True
                 final = {}
-        return {"comp": self.comp, "cfg": self.cfg, "setup": self.setup, "threads": threads,
+        lines = []
+        seen_with = set()
+        for e in sched.events:
+            if e[1] != "line" or e[2] not in ("allow", "record_success", "record_failure", "record_cancel"):
+                continue
+            lab = f"{e[2]}{e[3]}"
+            if lab in ("allow2", "record_success1", "record_failure2", "record_cancel1"):
+                # leaving the `with` block reports its line once more: that is the release step
+                if (e[0], lab) in seen_with:
+                    continue
+                seen_with.add((e[0], lab))
+            lines.append([e[0] + 1, lab])
+        return {"comp": self.comp, "cfg": self.cfg, "setup": self.setup, "threads": threads, "lines": lines,
                 "final": final, "deadlock": bool(deadlock), "errors": errors,
                 "schedule": choices,
                 "incomplete": (not deadlock) and any(len(t) != len(p) for t, p in zip(threads, self.programs))}
@@ -223,6 +235,76 @@ def run_program(comp: str, name: str, cfg: dict, setup: list, programs: list, bo
             hist[key] = h
         hist[key]["count"] = hist[key].get("count", 0) + 1
     return n, list(hist.values())
+
+
+KNOWN_LABELS = None
+
+
+def line_conformance(tier: str, rep: Report) -> dict:
+    """Design level: TLC checks the PlusCal algorithm BreakerThreads (one label per source line)
+    for mutual exclusion, linearizability and deadlock freedom, and that its lock-free variant is
+    NOT linearizable (vacuity guard).  Binding: line-level executions of the real methods recorded
+    by the scheduler are validated against the algorithm's labels (ThreadTrace.tla)."""
+    from .tlc import pick_cfg, run_tlc
+
+    d = run_tlc("BreakerThreads.tla", pick_cfg("BreakerThreads_locked", tier), tag="bt", timeout=3000,
+                extra=["-deadlock"] if False else None)
+    if not d.ok:
+        raise Machinery(f"BreakerThreads (locked) violates {d.violated}")
+    nl = run_tlc("BreakerThreads.tla", "BreakerThreads_nolock.cfg", tag="bt-nolock", timeout=3000)
+    if nl.ok or "Linearizable" not in nl.violated:
+        raise Machinery("vacuity guard: the lock-free variant of BreakerThreads was not refuted")
+    # line traces of the real code for programs inside the algorithm's scope
+    import json as _json
+    traces = []
+    rng = random.Random(seed() + 170)
+    scope = [p for p in systematic_programs() if p[0] == "breaker"]
+    rng.shuffle(scope)
+    for comp, name, cfg, setup, programs in scope[: (25 if tier == "quick" else 120)]:
+        def make(cfg=cfg, setup=setup, programs=programs):
+            ex = _Exec("breaker", cfg, setup, programs)
+            return ex.sched, [ex.thread_program(p) for p in programs], ex.collect
+        n = 0
+        for h in _explore_with_clock(make, 1, 12 if tier == "quick" else 60):
+            if h["deadlock"] or h["errors"]:
+                continue
+            # the scenario as the algorithm sees it: state after the setup operations
+            ex0 = _Exec("breaker", cfg, setup, programs)
+            b = ex0.obj
+            init = {"st": STATE[b.state.value],
+                    "openedAt": -1 if b._opened_at is None else int(round(b._opened_at / vtime.TICK)) - vtime.BASE_TICKS,
+                    "probe": bool(b._probe_in_flight),
+                    "fails": [int(round(x / vtime.TICK)) - vtime.BASE_TICKS for x in b._failures]}
+            vtime.set_active(None)
+            sc = {"cfg": {"thr": cfg["thr"], "W": cfg["W"], "R": cfg["R"], "trip": cfg["trip"]},
+                  "init": init, "clock": programs[0][0]["t"],
+                  "prog": [{"op": p[0]["op"], "k": p[0]["k"]} for p in programs]}
+            traces.append({"sc": sc, "lines": h["lines"], "program": name})
+            n += 1
+    from .tracecheck import SPEC, WORK
+    import os
+    import re
+    known = set(re.findall(r'pc\[self\] = "(\w+)"', (SPEC / "BreakerThreads.tla").read_text()))
+    for t in traces:      # continuation lines of multi-line statements have no label of their own
+        t["lines"] = [e for e in t["lines"] if e[1] in known]
+    tf = WORK / f"trace-lines-{os.getpid()}.json"
+    cf = WORK / f"ThreadTrace-{os.getpid()}.cfg"
+    tf.write_text(_json.dumps([{"sc": t["sc"], "lines": t["lines"]} for t in traces]))
+    cf.write_text((SPEC / "ThreadTrace.cfg.tpl").read_text().replace("@N@", str(len(traces))))
+    try:
+        tr = run_tlc("ThreadTrace.tla", str(cf), workers=4, env={"TRACE_FILE": str(tf)}, tag="tt", timeout=3000)
+    finally:
+        tf.unlink(missing_ok=True)
+        cf.unlink(missing_ok=True)
+    if not tr.ok:
+        raise Machinery(f"ThreadTrace reported {tr.violated}")
+    accepted = {a[0] for a in tr.tagged.get("ACCEPT", [])}
+    rejected = [t for i, t in enumerate(traces, 1) if i not in accepted]
+    if rejected:
+        rep.drift.append(f"{len(rejected)} of {len(traces)} line-level executions are not behaviours of "
+                         f"BreakerThreads.tla (e.g. program {rejected[0]['program']})")
+    return {"design_states": d.distinct, "design_lockfree_refuted": True,
+            "line_traces_checked": len(traces), "line_traces_conformant": len(traces) - len(rejected)}
 
 
 def check(tier: str) -> Report:
@@ -268,8 +350,10 @@ def check(tier: str) -> Report:
                       keys=("comp", "cfg", "setup", "threads", "final", "deadlock"))
     if cv[0]["viol"] or not cv[1]["viol"]:
         raise Machinery(f"canary failed: {cv}")
+    line_cov = line_conformance(tier, rep)
     rep.coverage.update({
-        "states": sum(v["_states"] for v in verdicts[:1]) or 1, "transitions": total,
+        "states": (sum(v["_states"] for v in verdicts[:1]) or 1) + line_cov.get("design_states", 0),
+        "transitions": total, **line_cov,
         "schedules_executed": total, "distinct_histories_judged_by_tlc": len(histories),
         "traces_validated_against_impl": total, "preemption_bound": bound,
         "programs": len(per_program), "per_program": per_program, "exhaustive": all(p["schedules"] < cap for p in per_program.values()),
